@@ -338,6 +338,84 @@ pub fn case_conc(bytes: &[u8], sched_bytes: &[u8], ctx: &mut Ctx) -> Result<(), 
     Ok(())
 }
 
+/// Two consumers: while one drain is open (inside the closure of a consume()), a second thread calls consume() as
+/// well, and the first one keeps pushing before it finally iterates its drain. consume() calls are serialised by the
+/// reservoir, so the second one waits; whatever the order, by the end (two quiescent drains) every value must have
+/// been yielded exactly once — never more than the capacity is pushed. No pusher runs concurrently with a drain of
+/// its own side here, so neither recorded window is involved.
+fn overlapping_consumes(pr: &PropRun) -> LaneReport {
+    use crate::engine::runner::Violation;
+    use std::sync::atomic::{AtomicBool, Ordering};
+    let start = std::time::Instant::now();
+    let mut rep = LaneReport::named("overlapping-consumes");
+    let rounds = pr.cfg.cases(60, 1_500);
+    let mut bad: Option<String> = None;
+    for round in 0..rounds {
+        let cap = [4usize, 8, 16][(round % 3) as usize];
+        let n0 = 1 + (round % 3) as u64;
+        let n1 = 1 + (round / 3 % 2) as u64;
+        let r = AtomicSamplingReservoir::new(cap);
+        let mut pushed: Vec<u64> = Vec::new();
+        let mut next = 1u64;
+        for _ in 0..n0 {
+            r.push(next as f64);
+            pushed.push(next);
+            next += 1;
+        }
+        let mut yielded: Vec<(u8, f64)> = Vec::new();
+        let second: Mutex<Vec<f64>> = Mutex::new(Vec::new());
+        let done = AtomicBool::new(false);
+        let mut second_finished_inside = false;
+        std::thread::scope(|s| {
+            r.consume(|drain| {
+                let (r, second, done) = (&r, &second, &done);
+                s.spawn(move || {
+                    let mut got = Vec::new();
+                    r.consume(|d| got.extend(d));
+                    *second.lock().unwrap() = got;
+                    done.store(true, Ordering::Release);
+                });
+                let t0 = std::time::Instant::now();
+                while !done.load(Ordering::Acquire) && t0.elapsed() < std::time::Duration::from_millis(12) {
+                    std::thread::sleep(std::time::Duration::from_micros(200));
+                }
+                second_finished_inside = done.load(Ordering::Acquire);
+                for _ in 0..n1 {
+                    r.push(next as f64);
+                    pushed.push(next);
+                    next += 1;
+                }
+                yielded.extend(drain.map(|v| (1u8, v)));
+            });
+        });
+        yielded.extend(second.lock().unwrap().iter().map(|v| (2u8, *v)));
+        for extra in 0..2u8 {
+            r.consume(|d| yielded.extend(d.map(|v| (10 + extra, v))));
+        }
+        let mut ctx = Ctx::default();
+        ctx.fingerprint = Some(round);
+        ctx.nontrivial("second-consume-issued-while-a-drain-is-open");
+        if second_finished_inside {
+            ctx.class("second-consume-finished-while-the-first-drain-was-open");
+        }
+        if round == 0 {
+            ctx.desc = Some("push 1-3 values; consume(|drain| { another thread calls consume(); wait 12 ms for it; push 1-2 more values; iterate drain }); two quiescent drains".into());
+        }
+        rep.account(ctx);
+        let mut seen: Vec<u64> = yielded.iter().map(|(_, v)| *v as u64).collect();
+        seen.sort();
+        if seen != pushed {
+            bad = Some(format!("round {}: capacity {}, values {:?} were pushed ({} before the first consume, {} inside its closure while a second consume was pending) but the drains yielded (drain, value) {:?}; the second consume {} while the first drain was open", round, cap, pushed, n0, n1, yielded, if second_finished_inside { "ran to completion" } else { "waited" }));
+            break;
+        }
+    }
+    if let Some(msg) = bad {
+        rep.violations.push(Violation { lane: "overlapping-consumes".into(), sig: "values-lost-or-repeated-by-overlapping-consumes".into(), msg, bytes: vec![], sched: vec![], decoded: "two real threads (the second consume is released by the first one's return)".into() });
+    }
+    rep.wall_s = start.elapsed().as_secs_f64();
+    rep
+}
+
 fn uniformity(pr: &PropRun) -> LaneReport {
     let start = std::time::Instant::now();
     let mut rep = LaneReport::named("uniformity");
@@ -605,6 +683,8 @@ pub fn run(cfg: &RunCfg, replay: Option<&str>) -> i32 {
     let r = run_lane(&c, "C16", &Lane { name: "concurrent", cases: c.cases(1_000_000, 20_000_000), max_len: 24, sched_len: 48, workers: 0, f: &case_conc });
     pr.push(r);
     let r = run_lane(&c, "C16", &Lane { name: "through-the-exporter", cases: c.cases(60_000, 2_000_000), max_len: 32, sched_len: 0, workers: 0, f: &case_exporter });
+    pr.push(r);
+    let r = overlapping_consumes(&pr);
     pr.push(r);
     let r = uniformity(&pr);
     pr.push(r);
